@@ -26,6 +26,7 @@ type RunConfig struct {
 	Workers    int
 	MaxPaths   int
 	Budget     time.Duration
+	KnownSigs  map[string]bool // signatures of recorded (open) findings
 	SolverArgv []string
 	MaxSamples int
 	Seed       int64
@@ -130,6 +131,7 @@ func (e *Explorer) Run() {
 	e.queue = [][]Dec{nil}
 	var wg sync.WaitGroup
 	var deadline, firstViol time.Time
+	violSeen := 0
 	const violGrace = 90 * time.Second
 	if e.cfg.Budget > 0 {
 		deadline = t0.Add(e.cfg.Budget)
@@ -166,8 +168,14 @@ func (e *Explorer) Run() {
 				// a run that has found violations is failing whatever the rest of the search yields: it is given a
 				// grace period to collect further distinct signatures and is then cut short (some changes make every
 				// remaining query expensive)
-				if len(e.Violations) > 0 && firstViol.IsZero() {
-					firstViol = time.Now()
+				if firstViol.IsZero() {
+					for _, v := range e.Violations[violSeen:] {
+						if !e.cfg.KnownSigs[v.Sig] { // recorded findings are reported and do not fail the run
+							firstViol = time.Now()
+							break
+						}
+					}
+					violSeen = len(e.Violations)
 				}
 				failing := !firstViol.IsZero() && time.Since(firstViol) > violGrace
 				e.mu.Unlock()
